@@ -119,8 +119,11 @@ def execute(case: Case, prefix: t.Sequence[str] = (), bound: int = 0, reduce: bo
     world = W.World(case.plans, case.collab)
     W.CUR = world
     nruns = len(case.inputs)
-    given_inputs = [dict(i) if i is not None else None for i in case.inputs]
-    given_meta = [{'tenant': 't', 'trace': [1, 2]} for _ in case.inputs]
+    given_inputs = [{k: (W.OPAQUE if v == '@opaque' else v) for k, v in i.items()} if i is not None else None for i in case.inputs]
+    given_meta = [{'tenant': 't' if r_ == 0 else f't{r_}', 'trace': [1, 2]} for r_ in range(len(case.inputs))]
+    for r_ in range(nruns):
+        world.given[r_] = dict(pid=None if case.collab.get('omit_pipeline_id') else f'run{r_}',
+                               inputs=dict(given_inputs[r_] or {}), meta={'tenant': 't' if r_ == 0 else f't{r_}', 'trace': [1, 2]})
     actions: t.List[str] = []
     points: t.Dict[int, tuple] = {}
     status = None
